@@ -1,2 +1,139 @@
+"""C09, kbmag route: records enumerated by TLC from spec/fsa/GapRecord.tla are rendered as
+GAP record text and loaded through the real parser; the loaded automaton must be exactly
+the specified edge set, vertex set 1..n and start state."""
+import os
+from .. import core
+from .. import fsa_common as fc
+
+
+def render(rec):
+    """Trusted renderer: abstract record + layout -> kbmag/GAP record text."""
+    lay = rec["layout"]
+    sep = lay["sep"]
+    n, names, table, init = rec["n"], rec["names"], rec["table"], rec["init"]
+    if sep == "none":
+        A, C = ":=", ","
+        def ind(d): return ""
+    elif sep == "space":
+        A, C = " := ", ", "
+        def ind(d): return ""
+    else:
+        A = " := "
+        C = None
+        def ind(d): return "\n" + "  " * d
+    def join(items, d):
+        if sep == "newline":
+            return ("," + ind(d)).join(items)
+        return C.join(items)
+    def lst(items):
+        return "[" + ",".join(items) + "]"      # lists are written tight (interval syntax needs it)
+    def rec_(fields, d):
+        return "rec(" + ind(d) + join([k + A + v for k, v in fields], d) + ind(d - 1) + ")"
+    nm = ['"%s"' % x for x in names] if lay["quoted"] else list(names)
+    alphabet = rec_([("type", '"identifiers"'), ("size", str(len(names))), ("format", '"dense"'),
+                     ("names", lst(nm))], 2)
+    st_fields = [("type", '"simple"'), ("size", str(n))]
+    if lay["nested_extra"]:
+        st_fields.append(("extra", rec_([("depth", "2"), ("tag", '"x"')], 3)))
+    states = rec_(st_fields, 2)
+    accepting = "[1..%d]" % n if lay["interval"] else lst([str(i) for i in range(1, n + 1)])
+    nt = sum(1 for row in table for x in row if x != 0)
+    rows = [lst([str(x) for x in row]) for row in table]
+    trans = "[" + (("," + ind(4)) if sep == "newline" else ",").join(rows) + "]"
+    tab = rec_([("format", '"dense deterministic"'), ("numTransitions", str(nt)), ("transitions", trans)], 2)
+    f_is, f_al, f_st = ("isFSA", "true"), ("alphabet", alphabet), ("states", states)
+    f_fl, f_in = ("flags", lst(['"DFA"', '"minimized"'])), ("initial", lst([str(init)]))
+    f_ac, f_ta = ("accepting", accepting), ("table", tab)
+    if lay["order"] == "std":
+        fields = [f_is, f_al, f_st, f_fl, f_in, f_ac, f_ta]
+    elif lay["order"] == "table_first":
+        fields = [f_is, f_ta, f_al, f_st, f_fl, f_in, f_ac]
+    else:
+        fields = [f_is, f_al, f_st, f_fl, f_ac, f_ta, f_in]
+    return "_RWS.wa" + A + rec_(fields, 1) + ";\n"
+
+
+def load_text(text):
+    from geometry_tools.automata import fsa, gap_parse
+    record, _ = gap_parse.parse_record(text)
+    return fsa._from_gap_record(record)
+
+
+def check_record(run, rec, via_file=None):
+    text = render(rec)
+    key = "gap:" + text.replace("\n", "\\n")[:400]
+    E = {tuple(e) for e in rec["E"]}
+    vs = set(range(1, rec["n"] + 1))
+    try:
+        if via_file:
+            from geometry_tools.automata import fsa
+            with open(via_file, "w") as fh:
+                fh.write(text)
+            f = fsa.load_kbmag_file(via_file)
+        else:
+            f = load_text(text)
+        if f is None:
+            run.violation(key, "gap:no_automaton", dict(text=text))
+            return
+        bad = fc.project_check(f, vs, E)
+        if not bad and list(f.start_vertices) != [rec["init"]]:
+            bad = ("start", "start_vertices %r != [%d]" % (f.start_vertices, rec["init"]))
+    except Exception as e:
+        bad = ("raised", "%s: %s" % (type(e).__name__, e))
+    if bad:
+        run.violation(key, "gap:" + bad[0], dict(text=text, observed=bad[1], record={k: rec[k] for k in ("n", "names", "table", "init", "layout")}))
+
+
 def run(run):
-    pass
+    quick = run.tier == "quick"
+    configs = [(3, {"a", "b"}, "hash")] if quick else [(2, {"a", "b"}, "all"), (3, {"a", "b"}, "hash"), (2, {"a", "b", "c"}, "hash")]
+    total = 0
+    tmpf = os.path.join(run.work, "rec.wa")
+    for (ms, names, mode) in configs:
+        c = core.cfg(constants=dict(MaxStates=ms, Names=names, LayoutMode=mode, MaxLen=3),
+                     invariants=["TableMeaning", "Deterministic", "EmitRec"])
+        r = run.tlc("fsa/GapRecord.tla", c, name="GapRecord_%d_%d_%s" % (ms, len(names), mode),
+                    workers=min(8, core.NCPU), emit_prefix="REC ")
+        for i, rec in enumerate(r.emits):
+            check_record(run, rec, via_file=tmpf if i % 50 == 0 else None)
+            run.case(key=None, action="load_gap_record")
+            total += 1
+        if r.emits:
+            rec = r.emits[len(r.emits) // 3]
+            run.sample(dict(kind="kbmag record", text=render(rec), expected_edges=rec["E"], init=rec["init"]))
+    run.traces += total
+    run.extra["gap_records"] = total
+    builtin_files(run)
+
+
+def builtin_files(run):
+    """every built-in automaton file: the loaded automaton's three views equal the table written in the text
+    (table extracted by an independent regular-expression reader)."""
+    import re
+    import importlib.resources
+    from geometry_tools import automata
+    from geometry_tools.automata import fsa
+    names = sorted(fsa.list_builtins())
+    for name in names:
+        text = (importlib.resources.files(automata) / fsa.BUILTIN_DIR / name).read_text()
+        flat = re.sub(r"\s+", "", text)
+        m_names = re.search(r"names:=\[([^\]]*)\]", flat)
+        m_tr = re.search(r"transitions:=\[(\[.*?\])\]\)", flat)
+        m_init = re.search(r"initial:=\[(\d+)\]", flat)
+        if not (m_names and m_tr and m_init):
+            raise core.MachineryFailure("cannot read built-in file %s independently" % name)
+        labs = [x.strip('"') for x in m_names.group(1).split(",")]
+        rows = [[int(x) for x in r.split(",") if x != ""] for r in re.findall(r"\[([^\[\]]*)\]", m_tr.group(1))]
+        E = {(i + 1, labs[j], t) for i, row in enumerate(rows) for j, t in enumerate(row) if t != 0}
+        vs = set(range(1, len(rows) + 1))
+        try:
+            f = fsa.load_builtin(name)
+            bad = fc.project_check(f, vs, E)
+            if not bad and list(f.start_vertices) != [int(m_init.group(1))]:
+                bad = ("start", repr(f.start_vertices))
+        except Exception as e:
+            bad = ("raised", "%s: %s" % (type(e).__name__, e))
+        run.case(key=("builtin", name), action="load_builtin")
+        if bad:
+            run.violation("builtin:" + name, "builtin:" + bad[0], dict(file=name, observed=bad[1]))
+    run.extra["builtin_files"] = len(names)
